@@ -49,14 +49,14 @@ Proof.
     change (str_eqb (dname d) (s "include")) with (is_include d).
     unfold if_value. rewrite if_arg_find.
     destruct (is_skip d).
-    + destruct (find is_if (dargs d)) as [[i v]|]; [|discriminate]. cbn [snd].
+    + destruct (find is_if (dargs d)) as [[i v]|]; [|cbn [andb]; apply IH; exact H]. cbn [snd].
       destruct v as [x p| | | |p bb| | | |]; try (cbn [andb]; apply IH; exact H).
       * destruct (var_value b x) as [[]|] eqn:Hv; [| |discriminate].
         -- rewrite (var_value_lookup _ _ _ Hv). inversion H. reflexivity.
         -- rewrite (var_value_lookup _ _ _ Hv). cbn [andb]. apply IH. exact H.
       * destruct bb; [inversion H; reflexivity | cbn [andb]; apply IH; exact H].
     + destruct (is_include d).
-      * destruct (find is_if (dargs d)) as [[i v]|]; [|discriminate]. cbn [snd].
+      * destruct (find is_if (dargs d)) as [[i v]|]; [|cbn [andb]; apply IH; exact H]. cbn [snd].
         destruct v as [x p| | | |p bb| | | |]; try (cbn [andb]; apply IH; exact H).
         -- destruct (var_value b x) as [[]|] eqn:Hv; [| |discriminate].
            ++ rewrite (var_value_lookup _ _ _ Hv). cbn [andb]. apply IH. exact H.
